@@ -298,6 +298,8 @@ impl MainState {
             subcommand is END && old(conn_state).user_state.authenticated ==> vs_same(*final(state), *old(state)), // @prop C02
             !final(conn_state).user_state.authenticated ==> vs_same(*final(state), *old(state)) && conn_pre(*final(conn_state), *final(state)), // @prop C02,C03
             final(conn_state).user_state.authenticated && !old(conn_state).user_state.authenticated ==> conn_ok(*final(conn_state), *final(state)) && subcommand is END, // @prop C03
+            // a registered connection stays registered and linked to its user
+            old(conn_state).user_state.authenticated ==> final(conn_state).user_state.authenticated && conn_ok(*final(conn_state), *final(state)), // @prop C02
             sym(*final(state)), // @prop C04,C05
             chans_wf(*final(state)), // @prop C04,C08
             no_empty_chan(*final(state)), // @prop C16
